@@ -198,6 +198,26 @@ class Deep(Part):
         return case
 
 
+class FuzzFromString(Part):
+    """Coverage-guided campaign (atheris/libFuzzer) on LDAPFilter.from_string with the oracle in the target."""
+
+    name = "atheris-from-string"
+    fuzz = True
+    shards = {QUICK: 0, THOROUGH: 16}
+    fuzz_runs = {QUICK: 0, THOROUGH: 500000}
+    fuzz_max_len = 256
+    budget = {QUICK: 10.0, THOROUGH: 2400.0}
+
+    def seed_corpus(self) -> t.List[bytes]:
+        return [s.encode("utf-8", "surrogateescape") for s in AllEdits.SENTENCES + ["(&(|(a=b)(!(c=d)))(e:dn:=f))", "(cn=*a*b*)", "(cn=)"]]
+
+    def check(self, case: t.Any, ctx: Ctx) -> t.List[Violation]:
+        return check_text(case["data"].decode("utf-8", "surrogateescape"), ctx)
+
+    def sample(self, case: t.Any) -> t.Any:
+        return case["data"][:120].decode("utf-8", "surrogateescape")
+
+
 def _selftest(tier: str, seed: int) -> None:
     V = rfc4515.valid_attribute_description
     for good in ["cn", "objectClass", "a-b", "cn;lang-en", "cn;x;y-1", "2.5.4.3", "1.2;binary", "0.0", "a0"]:
@@ -220,7 +240,7 @@ PROP = Property(
         "OIDs tolerated: pinned by test_attribute_parsing) and from_string(str(result)) projects to the same tree. "
         "Non-trivial = input contains '=' (reaches the item parser) or is accepted or escapes; distinct by text."
     ),
-    parts=[Texts(), Edits(), AllEdits(), Deep()],
+    parts=[Texts(), Edits(), AllEdits(), Deep(), FuzzFromString()],
     assumptions=["offsets are judged in the units the parser works in (most permissive reading of 'inside the input')"],
     selftest=_selftest,
     technique="property-based fuzzing of the text parser (random text, grammar-sentence edits, deep nesting) + exhaustive single-edit enumeration",
